@@ -418,6 +418,71 @@ func completionBehindCollectionTrial(r *vh.Run, i int) {
 	}
 }
 
+// sessionPairTrial: several requests on ONE upload session at the same time - the PUT that completes it, status
+// queries, a late chunk, a cancel.  Whatever each of them is answered, all of them return, and so do a listing, a new
+// push and Close afterwards.  (The completion takes the session's lock and then the repository's; a handler that looks
+// the session up takes the repository's - any code that takes them in the other order meets it here.)  Rounds run under
+// the jittering sync shim; stable-stall rule.
+func sessionPairTrial(r *vh.Run, i int) {
+	kind := []vh.StoreKind{vh.Dir, vh.Mem}[i%2]
+	root := ""
+	if kind == vh.Dir {
+		root = r.TempDir("c12s")
+		defer vh.RemoveAll(root)
+	}
+	srv := vh.New(vh.Conf(kind, root, vh.Policy{Untagged: true, Grace: time.Hour}))
+	wit := map[string]any{"trial": i, "store": kind.String()}
+	rounds := 30
+	res := vh.Watch(func() {
+		for n := 0; n < rounds; n++ {
+			rs := vh.Do(srv, vh.Req{Method: "POST", URL: "/v2/s/blobs/uploads/"})
+			loc := rs.H.Get("Location")
+			if rs.Status != 202 || loc == "" {
+				continue
+			}
+			content := []byte(fmt.Sprintf("pair %d/%d", i, n))
+			ps := vh.Do(srv, vh.Req{Method: "PATCH", URL: loc, Body: content})
+			if ps.Status != 202 || ps.H.Get("Location") == "" {
+				continue
+			}
+			fin := ps.H.Get("Location")
+			path := fin[:strings.Index(fin, "?")]
+			var wg sync.WaitGroup
+			reqs := []vh.Req{
+				{Method: "PUT", URL: fin + "&digest=" + vh.DigestOf("sha256", content)},
+				{Method: "GET", URL: path},
+				{Method: "GET", URL: path},
+				{Method: "GET", URL: path},
+			}
+			switch n % 3 {
+			case 1:
+				reqs = append(reqs, vh.Req{Method: "PATCH", URL: fin, Body: []byte("late")})
+			case 2:
+				reqs = append(reqs, vh.Req{Method: "DELETE", URL: path})
+			}
+			for _, rq := range reqs {
+				wg.Add(1)
+				go func(rq vh.Req) { defer wg.Done(); vh.Do(srv, rq) }(rq)
+			}
+			wg.Wait()
+			r.Count("session_pair_rounds", 1)
+		}
+		vh.Do(srv, vh.Req{Method: "GET", URL: "/v2/s/tags/list"})
+		b := []byte(fmt.Sprintf("after the pairs %d", i))
+		vh.Do(srv, vh.Req{Method: "POST", URL: "/v2/s/blobs/uploads/?digest=" + vh.DigestOf("sha256", b), Body: b})
+		_ = srv.Close()
+	}, 3*time.Second, 90*time.Second)
+	r.Count("session_pair_trials", 1)
+	if res.Stalled {
+		wit["blocked_goroutines"] = res.Desc
+		r.Violation("session-requests-block-each-other", fmt.Sprintf("%s store: the completing PUT of an upload session and other requests on the same session (status queries, a late chunk, a cancel) were sent together; they never return - every goroutine inside olareg is blocked", kind), wit)
+		return
+	}
+	if !res.Done {
+		r.Inconclusive("sessionPairTrial: still running after 90 s without a stable stall")
+	}
+}
+
 // failedCompletionTrial: the completion of an upload fails inside the store (the place of the blob is taken by a
 // directory, or the session's file has disappeared under it).  Whatever that request is answered: the repository
 // stays usable - a listing, a new push and Close return.  Stable-stall rule.
@@ -861,6 +926,14 @@ func main() {
 		before := r.Violations()
 		for i := 0; i < nfc && r.Violations() == before; i++ {
 			failedCompletionTrial(r, i)
+		}
+		st = r.Violations() > before
+	}
+	if !st {
+		nsp := r.N(4, 40)
+		before := r.Violations()
+		for i := 0; i < nsp && r.Violations() == before; i++ { // one at a time: the stall rule looks at the whole process
+			sessionPairTrial(r, i)
 		}
 		st = r.Violations() > before
 	}
